@@ -33,7 +33,7 @@ func boolTerm(m *Machine, v value) *Term {
 	case *Sym:
 		return b.T
 	}
-	panic(fmt.Sprintf("harness API: expected bool, got %T", v))
+	panic(fmt.Sprintf("symgo: internal: harness API: expected bool, got %T", v))
 }
 
 var apiIntrinsics map[string]intrinsic
